@@ -8,6 +8,7 @@ from . import common, machine
 
 replay_one = machine.replay_one
 NA = 20
+NH = 18      # size of FamMutate's header vocabulary
 
 BINARY = [
     [0], [0xff], [0xc3], [0xe2, 0x82], [0xf0, 0x9f], [13], [13, 10], [0xef, 0xbb, 0xbf],
@@ -86,19 +87,19 @@ def run(chk):
     hdr = set()
     full = 2 if chk.tier == "quick" else 3
     for ln in range(0, full + 1):
-        for c in range(16 ** ln):
+        for c in range(NH ** ln):
             hdr.add(ln * 10000000 + c)
     for ln, n in ((3, 500), (4, 500)) if chk.tier == "quick" else ((4, 20000), (5, 10000)):
         for _ in range(n):
-            hdr.add(ln * 10000000 + rnd.randrange(16 ** ln))
+            hdr.add(ln * 10000000 + rnd.randrange(NH ** ln))
     # headers after a keyword and a name, with bodies that use the parameter in every expression and statement form
     hdr2 = set()
     for ln in range(0, 4):
-        for c in range(16 ** ln):
+        for c in range(NH ** ln):
             hdr2.add(ln * 10000000 + c)
     if chk.tier != "quick":
         for _ in range(8000):
-            hdr2.add(4 * 10000000 + rnd.randrange(16 ** 4))
+            hdr2.add(4 * 10000000 + rnd.randrange(NH ** 4))
     res3 = common.run_tlc("FamMutate", "FamMutate.cfg", defines={"TIER": chk.tier, "EDITS1": tlaset(e1), "EDITS2": tlaset(e2), "HEADERS": tlaset(hdr),
                                                                  "HEADERS2": tlaset(hdr2)}, timeout=1800)
     chk.add_tlc(res3, "FamMutate")
